@@ -735,6 +735,7 @@ int main(int argc, char** argv) {
   ctl::Trace tr(a.str("out", "trace.ndjson"));
   drv::Totals tot;
   std::vector<std::pair<Program, std::string>> progs;
+  std::vector<bool> hasPool; // spurious futex returns are only injected into programs without the real pool
   std::vector<bool> spins; // programs with TaskSet::wait spin loops: no PCT priorities (a spinning waiter would starve the pool)
   {
     FILE* f = fopen(a.str("progs").c_str(), "r");
@@ -753,6 +754,7 @@ int main(int argc, char** argv) {
       size_t tab = l.find('\t');
       progs.emplace_back(parseProg(l.substr(0, tab)), tab == std::string::npos ? std::string("\"prog\":0") : l.substr(tab + 1));
       spins.push_back(l.substr(0, tab).find("tsnew") != std::string::npos);
+      hasPool.push_back(l.substr(0, tab).find("new.") != std::string::npos);
     }
     free(line);
     fclose(f);
@@ -780,7 +782,7 @@ int main(int argc, char** argv) {
         o.seed = seed * 1000003ULL + (uint64_t)pi * 7919ULL + (uint64_t)i;
         o.pctDepth = (i % 3 == 2 && !spins[pi]) ? (int)a.num("pct", 0) : 0;
         o.allowTimeout = !a.has("notimeout");
-        o.allowSpurious = a.has("spurious");
+        o.allowSpurious = a.has("spurious") && !hasPool[pi];
         o.maxSteps = (size_t)a.num("maxsteps", 30000);
         auto r = execute(progs[pi].first, progs[pi].second, o, tr, "p" + std::to_string(pi) + "s" + std::to_string(o.seed));
         tot.add(r);
